@@ -102,6 +102,15 @@ claim('C13', 'who-may-write scan of the dict level + path/loop analysis of Datas
       'constructor inserts aligned arrays. The equality used to compare axes is not judged.',
       'Assumes copy.copy / copy.deepcopy and list method semantics.', 'DESIGN.md §3 C13')
 
+claim('C14', 'registry/sibling checks of the delegations, deviance rule over the per-variable loops, index-kind typing, metadata provenance, twin comparison with DimArray.reindex_axis',
+      'Decides structural clauses of C14: the reductions pass their own name and run only on variables having the axis; take_axis / sort_axis / interp_axis go through '
+      'reduce_axis with the same primitive as the DimArray twin, which transforms each variable along the variable\'s own position of the dimension, keeps variables '
+      'lacking it, and carries the requested axis; positions resolved on the dataset axes are handed to variables with indexing=position, labels with indexing=label; '
+      'arithmetic passes the caller\'s operand to the per-variable operation unchanged; stack_ds / concatenate_ds call the array functions per variable; take, take_axis, '
+      'sort_axis, reindex_axis and interp_axis carry dataset attrs; Dataset.reindex_axis mirrors DimArray.reindex_axis (mask, relabel, guarded per-variable fill with '
+      'cast=True). Value equality with per-variable results is not decided.',
+      'Assumes np.take semantics; Dataset.__setitem__ re-establishes shared axes (C13).', 'DESIGN.md §3 C14')
+
 UNDER_CONSTRUCTION = 'checker under construction in this session (claimed in DESIGN.md, not yet registered)'
 for pid in ['C01', 'C03', 'C04', 'C05', 'C06', 'C07', 'C08', 'C09', 'C10', 'C11', 'C12', 'C13', 'C14', 'C15', 'C16',
             'C17', 'C18', 'C19']:
